@@ -20,6 +20,8 @@ DECIDED_R6 = ('Round 6: early-stop bound of the read loop; an empty CONTENT_LENG
 DECIDED = DECIDED + ' ' + DECIDED_R6
 DECIDED_R7 = ('Round 7: request.copy() keeps the memo of the buffered body; nobody closes the cached body, also through its memo key.')
 DECIDED = DECIDED + ' ' + DECIDED_R7
+DECIDED_R8 = ('Round 8: the part reader is started once (no start can follow another) and its block size is the buffer size parameter.')
+DECIDED = DECIDED + ' ' + DECIDED_R8
 NOT_DECIDED = 'nothing of the statement beyond the stated assumptions (PEP 3333 read contract; BytesIO/TemporaryFile semantics).'
 ASSUMPTIONS = ['wsgi.input.read(n) returns at most n bytes (PEP 3333)',
                'io.BytesIO / tempfile.TemporaryFile write/getvalue/seek behave as documented']
@@ -633,6 +635,23 @@ def check_body_props(P, R):
         R.ob('C04.e', fb, r, ok, detail='' if ok else 'body does not return the cached buffer rewound to 0')
     check_content_length(P, R, 'C04.e')
     check_copy_keeps_body_memo(P, R, 'C04.e', decs)
+    # the buffered body is a memo of what `wsgi.input` delivered: a stream installed through the request (`request['wsgi.input'] = s`) drops it
+    from . import c18 as _c18
+    for d_ in decs:
+        if d_.args and isinstance(d_.args[0], ast.Constant) and isinstance(d_.args[0].value, str):
+            mk = d_.args[0].value.replace(' ', '')
+            if mk.startswith('environ[') and mk.endswith(']'):
+                key_ = mk[len('environ['):-1]
+                ld_ = _c18.listener_drops(P, 'wsgi.input')
+                if ld_ is None:
+                    R.undecided('C04.e', f, d_, '_body memo', 'how the change listener maps `wsgi.input` to the memos it drops has no recogniser')
+                    continue
+                dropped_, prefix_ = ld_
+                okm = any(prefix_ + x_ == key_ for x_ in dropped_)
+                R.ob('C04.e', f, d_, okm, text=f'memo `{key_}` of the buffered body is dropped when wsgi.input is replaced through the request', detail='' if okm else
+                     f'the body is memoised under `{key_}`, which the change listener does not drop for `wsgi.input` (it drops {sorted(prefix_ + x_ for x_ in dropped_)}): after '
+                     f'`request["wsgi.input"] = stream` the application keeps seeing the bytes of the old stream, and the new one is never read',
+                     why='the body presented is what the input stream of the request delivers', key_extra='body-memo-dropped')
 
     check_nobody_closes_body(P, R, 'C04.e', f, decs)
 
